@@ -291,6 +291,19 @@ def c19(report, rng, tier, findings):
                 case['sel'] = [ch] + [t for t in case['sel'] if t[0] == 'var'][:1]
                 case['entity'] = len(case['sel']) == 1
             report.count('chain_through_an_attribute_value')
+        elif rng.random() < 0.15:
+            # a FIELD CONSTRAINT with a falsy constant: the variable is written in predicate form T(From(d), b=<0, '', None,
+            # False, [], ()>) - the constant constrains the field like any other value; the explicit twin writes x.b == const
+            v0 = case['vars'][0][0]
+            X = ('var', v0)
+            lit_ = ('lit', rng.choice(gen.FALSY + gen.FALSY + [('i', 1), ('i', 2)]))
+            g_ = gen.CondGen(rng, cfg, [v[0] for v in case['vars']])
+            extra_ = [g_.atom()] if rng.random() < 0.5 else []
+            plain = {**case, 'sel': [X] + [t for t in case['sel'] if t[0] == 'var' and t != X]}     # the term is selected
+            plain['entity'] = len(plain['sel']) == 1
+            case = {**plain, 'cond': extra_ or None, 'pform': {v0: {'pos': [], 'kw': [('b', lit_)]}}}
+            case['explicit'] = {**plain, 'cond': [('cmp', 'eq', ('attr', 'b', X), lit_)] + extra_}
+            report.count('field_constraint_with_a_falsy_constant')
         elif rng.random() < 0.2:
             # an ENTRY OF A DICT attribute (x.d[k], often None / 0 / '' / [] / ()) as a value: comparison operand, membership
             # item, selected output
